@@ -95,6 +95,7 @@ class GenOptions:
     main_loop: bool = True
     probe_rate: float = 0.9
     typing_bias: bool = False
+    steady_loop: bool = False  # main loop keeps the amount of live list/str data constant
 
 
 class ProgGen:
@@ -116,6 +117,8 @@ class ProgGen:
         self.readonly: Set[str] = set()
         self.global_lists: Set[str] = set()
         self.len_safe: Set[str] = set()
+        self.literal_items: Dict[str, List[int]] = {}
+        self.in_main = False
 
     # ------------------------------------------------------------ utilities
     def fresh(self, prefix: str) -> str:
@@ -164,14 +167,25 @@ class ProgGen:
             return self.int_lit()
         kind = r.choices(
             ["add", "sub", "mul", "mod", "floordiv", "minmax", "abs", "cast", "tern", "call", "index", "neg", "len", "sensor",
-             "truediv", "pow", "andor"],
-            weights=[5, 4, 3, 3, 2, 2, 1, 2, 2, 3, 2, 1, 1, 2, 1, 1, 1],
+             "truediv", "pow", "andor", "boolsum"],
+            weights=[5, 4, 3, 3, 2, 2, 1, 2, 2, 3, 2, 1, 1, 2, 1, 1, 1, 2],
         )[0]
         if nonneg and kind in ("sub", "neg", "call", "index", "tern", "cast", "truediv", "andor", "minmax"):
             kind = "mod"
         a = lambda **kw: self.int_expr(env, depth + 1, no_call=no_call, **kw)  # noqa: E731
         if kind == "add":
             return f"({a(nonneg=nonneg)} + {a(nonneg=nonneg)})"
+        if kind == "boolsum":
+            # Python: bools are ints (True + True == 2)
+            b = lambda: self.bool_expr(env, depth + 1, no_call=no_call)  # noqa: E731
+            form = r.choice(["sum", "sum3", "scaled", "mixed"])
+            if form == "sum":
+                return f"({b()} + {b()})"
+            if form == "sum3":
+                return f"(({b()} + {b()}) + {b()})"
+            if form == "scaled":
+                return f"({b()} * {r.randint(2, 9)})"
+            return f"({b()} + {a(nonneg=nonneg)})"
         if kind == "sub":
             return f"({a()} - {a()})"
         if kind == "mul":
@@ -521,6 +535,8 @@ class ProgGen:
             op = r.choice(["+=", "-=", "*="])
             rhs = r.choice(["0.5", "2.0", "1.5"]) if op == "*=" else self.float_expr(env, 1)
         else:
+            if self.opts.steady_loop and self.in_main:
+                return self.stmt_assign(depth, env, loop_ctx=True)
             op = "+="
             self.mutated_lists.add(v)
             rhs = r.choice([self.str_lit(), f'("," + str({self.int_expr(env, 2)}))'])
@@ -569,6 +585,11 @@ class ProgGen:
                 n = r.randint(1, 5)
                 body = r.choice(["i", "i * 2", "i + 1", "(i * i) % 7"])
                 self.emit(depth, f"{name} = [{body} for i in range({n})]")
+            elif elem == "int" and self.chance(0.4):
+                n = r.choice([1, 1, 2, 3])
+                values = [r.randint(0, 40) for _ in range(n)]
+                self.emit(depth, f"{name} = [{', '.join(str(v) for v in values)}]")
+                self.literal_items[name] = values
             else:
                 n = r.randint(1, 5)
                 items = [self.expr(env, elem, 2, no_call=True) for _ in range(n)]
@@ -583,9 +604,20 @@ class ProgGen:
             return
         name = r.choice(lists)
         elem = self.list_elem[name]
-        kind = r.choices(["append_remove", "append", "index_probe", "assign_idx", "reassign", "alias"],
-                         weights=[3, 3, 3, 1, 2, 1])[0]
+        kind = r.choices(["append_remove", "append", "index_probe", "assign_idx", "reassign", "alias", "remove_append"],
+                         weights=[3, 3, 3, 1, 2, 1, 3])[0]
         frozen = name in self.frozen_len
+        if self.opts.steady_loop and self.in_main and kind == "append":
+            kind = r.choice(["append_remove", "remove_append"])
+        if kind == "remove_append" and name in self.literal_items and not frozen:
+            # the multiset of the list is invariant under every operation generated for it, so a literal
+            # element is always present: remove it (possibly emptying the list) and put it back
+            v = r.choice(self.literal_items[name])
+            self.emit(depth, f"{name}.remove({v})")
+            self.emit(depth, f"{name}.append({v})")
+            self.mutated_lists.add(name)
+            self.probe(depth, env, [name])
+            return
         if kind in ("append", "append_remove") and not frozen and (elem == "int" or self.feature("nonint_list_append", 0.5)):
             if elem == "int":
                 val = str(r.randint(50, 99))
@@ -611,6 +643,7 @@ class ProgGen:
             items = [self.int_expr(env, 2, no_call=True) for _ in range(n)]
             # only legal when the transpiler's tracked length equals n, i.e. never appended
             if name not in self.mutated_lists:
+                self.literal_items.pop(name, None)
                 self.emit(depth, f"{name} = [{', '.join(items)}]")
                 self.mutated_lists.add(name)
                 self.probe(depth, env, [name])
@@ -995,7 +1028,9 @@ class ProgGen:
             self.emit(0, "while True:")
             loop_env = dict(env)
             # inside the main loop `break` is illegal at loop level; nested loops may break
+            self.in_main = True
             self.block(1, loop_env, {"in_loop": False, "main": True}, r.randint(2, max(3, o.max_stmts // 2)))
+            self.in_main = False
         return "\n".join(self.lines) + "\n"
 
 
